@@ -369,7 +369,10 @@ func (c *runCtx) step(op opRec) (executed bool, err error) {
 		lc := len(rows[0].Seq)
 		alpha := m.alphabet
 		if op.b(0) {
-			alpha = align.AMINOACIDS + align.NUCLEOTIDS - m.alphabet
+			alpha = align.NUCLEOTIDS
+			if m.alphabet == align.NUCLEOTIDS {
+				alpha = align.AMINOACIDS
+			}
 		}
 		other := align.NewAlign(alpha)
 		for _, r := range rows {
@@ -572,7 +575,8 @@ func (c *runCtx) step(op opRec) (executed bool, err error) {
 		if coll {
 			return c.skip("dedup", "name-collision")
 		}
-		nAsGap := op.b(0)
+		// with an unknown alphabet neither "N" nor "X" is designated: the flag is not passed then
+		nAsGap := op.b(0) && m.knownAlphabet()
 		key := func(s string, lowerToo bool) string {
 			if !nAsGap {
 				return s
@@ -633,7 +637,7 @@ func (c *runCtx) step(op opRec) (executed bool, err error) {
 		cs := charSel{chars: "-", aa: m.alphabet == align.AMINOACIDS}
 		var removed int
 		if op.Op == "rmgapseqs" {
-			cs.ignoreN = op.b(0)
+			cs.ignoreN = op.b(0) && m.knownAlphabet()
 			removed = c.al().RemoveGapSeqs(cut, cs.ignoreN)
 		} else {
 			ch := op.s(0)
@@ -641,7 +645,7 @@ func (c *runCtx) step(op opRec) (executed bool, err error) {
 				ch = "A"
 			}
 			cs.chars = ch[:1]
-			cs.ignoreCase, cs.ignoreGaps, cs.ignoreN = op.b(0), op.b(1), op.b(2)
+			cs.ignoreCase, cs.ignoreGaps, cs.ignoreN = op.b(0), op.b(1), op.b(2) && m.knownAlphabet()
 			removed = c.al().RemoveCharacterSeqs(ch[0], cut, cs.ignoreCase, cs.ignoreGaps, cs.ignoreN)
 		}
 		got := snapshot(c.sb)
@@ -700,7 +704,7 @@ func (c *runCtx) step(op opRec) (executed bool, err error) {
 			if cs.chars == "" {
 				cs.chars = "A"
 			}
-			cs.ignoreCase, cs.ignoreGaps, cs.ignoreN, cs.reverse = op.b(1), op.b(2), op.b(3), op.b(4)
+			cs.ignoreCase, cs.ignoreGaps, cs.ignoreN, cs.reverse = op.b(1), op.b(2), op.b(3) && m.knownAlphabet(), op.b(4)
 			first, last, kept, rm = c.al().RemoveCharacterSites([]uint8(cs.chars), cut, ends, cs.ignoreCase, cs.ignoreGaps, cs.ignoreN, cs.reverse)
 		}
 		got := snapshot(c.sb)
@@ -1148,6 +1152,48 @@ func (c *runCtx) step(op opRec) (executed bool, err error) {
 		un.IgnoreIdentical(policyOf(op.n(0)))
 		return true, nil
 
+	case "autoalphabet":
+		return c.autoAlphabet(op)
+
+	case "setalphabet":
+		req := []int{align.NUCLEOTIDS, align.AMINOACIDS, align.BOTH, align.UNKNOWN, 9}[mod(op.n(0), 5)]
+		e := c.sb.SetAlphabet(req)
+		what := fmt.Sprintf("SetAlphabet(%d) on %s", req, showRows(m.rows))
+		if req != align.NUCLEOTIDS && req != align.AMINOACIDS {
+			if err = c.checkErr(what+" (not an alphabet a container can have)", e, wantErr); err != nil {
+				return true, err
+			}
+			c.afterError()
+			return true, nil
+		}
+		// succeeds iff the content is compatible with the requested alphabet
+		nts, aas := alphabetReadings(m.rows)
+		compat := nts
+		if req == align.AMINOACIDS {
+			compat = aas
+		}
+		switch {
+		case len(compat) == 2:
+			c.o.Ambiguous++
+			if e == nil {
+				m.alphabet = req
+			} else {
+				c.afterError()
+			}
+		case compat[0]:
+			if err = c.checkErr(what, e, wantNoErr); err != nil {
+				return true, err
+			}
+			m.alphabet = req
+		default:
+			if err = c.checkErr(what+" (content not compatible)", e, wantErr); err != nil {
+				return true, err
+			}
+			c.o.Class("setalphabet:rejected")
+			c.afterError()
+		}
+		return true, nil
+
 	case "setpolicy":
 		c.sb.IgnoreIdentical(policyOf(op.n(0)))
 		m.policy = effectivePolicy(policyOf(op.n(0)))
@@ -1416,6 +1462,81 @@ func (c *runCtx) trimNamesAuto(op opRec) (bool, error) {
 	}
 	c.noteRename(changed, collBefore)
 	return true, nil
+}
+
+// ---- AutoAlphabet -----------------------------------------------------------------------------------
+
+// autoAlphabet: DetectAlphabet / AutoAlphabet against the independent classification of the whole
+// content, plus the relations that hold for any content-based detection: idempotence, independence
+// of the row order (a container built from the same rows in reverse order), and decomposition (an
+// alphabet is compatible with the set iff it is compatible with every residue taken alone)
+func (c *runCtx) autoAlphabet(op opRec) (bool, error) {
+	m := c.m
+	acc := acceptableDetect(m.rows)
+	det := c.sb.DetectAlphabet()
+	if !acc[det] {
+		return true, fmt.Errorf("DetectAlphabet()=%d, the residues admit %v (0 aa, 1 nt, 2 both, 3 unknown); rows %s", det, keysOf(acc), showRows(m.rows))
+	}
+	if len(acc) > 1 {
+		c.o.Ambiguous++
+	}
+	c.sb.AutoAlphabet()
+	a := c.sb.Alphabet()
+	if a != autoOf(det) {
+		return true, fmt.Errorf("AutoAlphabet sets %d although DetectAlphabet()=%d; rows %s", a, det, showRows(m.rows))
+	}
+	c.sb.AutoAlphabet()
+	if c.sb.Alphabet() != a {
+		return true, fmt.Errorf("AutoAlphabet is not idempotent: %d then %d; rows %s", a, c.sb.Alphabet(), showRows(m.rows))
+	}
+	// same rows, reverse order, fresh container
+	rev := newContainer(true, align.UNKNOWN)
+	for i := len(m.rows) - 1; i >= 0; i-- {
+		rev.AddSequence(fmt.Sprintf("r%d", i), m.rows[i].Seq, "")
+	}
+	if d := rev.DetectAlphabet(); d != det {
+		return true, fmt.Errorf("DetectAlphabet()=%d, but %d for the same rows in reverse order; rows %s", det, d, showRows(m.rows))
+	}
+	// residue by residue
+	isnt, isaa := true, true
+	seen := map[byte]bool{}
+	for _, r := range m.rows {
+		for i := 0; i < len(r.Seq); i++ {
+			ch := r.Seq[i]
+			if seen[ch] {
+				continue
+			}
+			seen[ch] = true
+			one := newContainer(true, align.UNKNOWN)
+			one.AddSequence("x", string(ch), "")
+			switch one.DetectAlphabet() {
+			case align.NUCLEOTIDS:
+				isaa = false
+			case align.AMINOACIDS:
+				isnt = false
+			case align.UNKNOWN:
+				isnt, isaa = false, false
+			}
+		}
+	}
+	if want := detectCode(isnt, isaa); want != det {
+		return true, fmt.Errorf("DetectAlphabet()=%d for the set, but its residues taken one by one give %d; rows %s", det, want, showRows(m.rows))
+	}
+	m.alphabet = a
+	c.o.Class("autoalphabet=%d", a)
+	if len(seen) > 0 {
+		c.o.Class("autoalphabet:detected=%d", det)
+	}
+	return true, nil
+}
+
+func keysOf(m map[int]bool) []int {
+	var k []int
+	for v := range m {
+		k = append(k, v)
+	}
+	sort.Ints(k)
+	return k
 }
 
 // ---- Translate ----------------------------------------------------------------------------------
